@@ -21,6 +21,9 @@ sys.path.insert(0, os.path.dirname(os.path.abspath(__file__)))
 import common
 from common import VERIF, COQ, Scn, Rng
 
+# evidence (and replay) directory; diverted by tools/seedrun.py while a seeded change is applied to /repo
+EVDIR = os.environ.get('VERIF_EVIDENCE_DIR') or os.path.join(VERIF, 'evidence')
+
 ALLOWED_AXIOMS = set()      # no axiom is expected; stdlib axioms would be listed here and in DESIGN.md
 
 
@@ -99,7 +102,7 @@ def load_known():
 
 
 def write_replay(pid, header, scns):
-    d = os.path.join(VERIF, 'evidence', 'replays')
+    d = os.path.join(EVDIR, 'replays')
     os.makedirs(d, exist_ok=True)
     body = ''.join(s.text() for s in scns)
     h = hashlib.sha256((header + body).encode()).hexdigest()[:10]
@@ -354,8 +357,8 @@ def main():
         ),
         assumptions=getattr(prop, 'ASSUMPTIONS', []),
         wall_s=round(wall, 2), violations=len(violations))
-    os.makedirs(os.path.join(VERIF, 'evidence'), exist_ok=True)
-    with open(os.path.join(VERIF, 'evidence', pid + '.json'), 'w') as f:
+    os.makedirs(EVDIR, exist_ok=True)
+    with open(os.path.join(EVDIR, pid + '.json'), 'w') as f:
         json.dump(ev, f, indent=1)
     print('%s: %d/%d obligations, %d scenarios (%d distinct non-trivial), %d oracle failures, %d disagreements, %d known, %.1fs' % (
         pid, pr['discharged'], pr['obligations'], stats['evaluations'], len(stats['nontrivial']), len(oracle_fail),
